@@ -97,14 +97,14 @@ def _h(name, tiers, role, bounds, covers, pool=False):
 
 SPEC = {
     "property": "C05",
-    "level_text": "Bounded symbolic verification of the real voting logic (consensus/votor.rs) against a reference monitor written from the property statement: on a freshly constructed node (the real Votor::new), after an optional fixed prefix, 2 (quick) or 3 (thorough) further events are delivered through the real handlers handle_blockstore_event / handle_timeout_event / handle_pool_event; WHICH event comes next is chosen by the solver from the family's menu of 4-7 concrete events (blocks of two competing chains arriving in any order, first shred, invalid block, timeouts, crashed-leader timeout, ParentReady for two candidate parents, SafeToNotar, SafeToSkip, CertCreated for all five certificate types, standstill bundles), so one harness decides all orders at once. Every vote is checked at the moment it is broadcast, knowing only what the node has been shown and what it has cast before: at most one initial vote per slot (notar or skip); notar only for a received block whose parent was announced ready (first slot of a window) or is the block the node notarized in the preceding slot; final only for the block it notarized, only after that block's notarization certificate was shown, never in a slot with its skip / skip-fallback / notar-fallback vote, and none of those after final; fallback votes only in slots where it has voted and only while handling the matching SafeToNotar(slot, block) / SafeToSkip(slot) event; every vote carries the node's own validator index and is signed with its own key; certificates are re-broadcast at most once per event, standstill bundles exactly. In two harnesses every vote is additionally shown, in emission order, to the pool's real SlotState::check_slashable_offence, which never reports an offence. 16 harnesses over two leader windows (slots 1-3 behind genesis, slots 4-7 with parents in slot 3). Counterexamples are replayed natively on the unmodified async code (real tokio channels and runtime context, real BLS keys, std containers); eight seeded mutations of votor.rs were each found and reproduced natively.",
-    "level_note": "NOT an inductive proof: histories of 2-3 solver-chosen events (plus a fixed prefix of up to 2) from the fresh state, events with concrete slots/blocks per family, slots 0-7, at most 2 blocks per slot, 2 candidate parents. Under Kani the async plumbing of votor.rs is rewritten mechanically, bodies verbatim (spec.py REDIRECTS): the eight async fns are compiled as ordinary functions behind Ready-returning wrappers, `.await` on them is a poll that must complete at once, Votor::broadcast is a synchronous recorder (the All2All implementation is exercised only in native replay), tokio::spawn of the timer task is dropped (timeouts are injected events), tokio mpsc ends are inert stand-ins, std BTreeMap/BTreeSet/Vec inside votor.rs are slot-indexed / 2-element / bitmap stand-ins (c05_coll.rs), the loop over pending slots visits slot numbers 0..7 in order and skips absent ones; BlockHash equality is compared word-wise, SecretKey::sign returns a token carrying the key's identity, log::max_level() is Off. CertCreated events reach handle_cert_created through the real should_ignore_pool_event but not through handle_pool_event's match (PoolEvent keeps its discriminant in a niche of the certificate, which CBMC does not constant-fold). Environment assumptions: SafeToNotar(s,b) only after the node's initial vote in s was skip or notar for another block, SafeToSkip(s) only after its notar vote in s (what the pool's check_safe_to_notar / count_*_stake guarantee; C06). Trusts Kani 0.68 MIR translation, CBMC 6.11, CaDiCaL.",
+    "level_text": "Bounded symbolic verification of the real voting logic (consensus/votor.rs) against a reference monitor written from the property statement: on a freshly constructed node (the real Votor::new), after an optional fixed prefix, 2 (quick) or 3-4 (thorough) further events are delivered through the real handlers handle_blockstore_event / handle_timeout_event / handle_pool_event; WHICH event comes next is chosen by the solver from the family's menu of 4-7 concrete events (blocks of two competing chains arriving in any order, first shred, invalid block, timeouts, crashed-leader timeout, ParentReady for two candidate parents, SafeToNotar, SafeToSkip, CertCreated for all five certificate types, standstill bundles), so one harness decides all orders at once. Every vote is checked at the moment it is broadcast, knowing only what the node has been shown and what it has cast before: at most one initial vote per slot (notar or skip); notar only for a received block whose parent was announced ready (first slot of a window) or is the block the node notarized in the preceding slot; final only for the block it notarized, only after that block's notarization certificate was shown, never in a slot with its skip / skip-fallback / notar-fallback vote, and none of those after final; fallback votes only in slots where it has voted and only while handling the matching SafeToNotar(slot, block) / SafeToSkip(slot) event; every vote carries the node's own validator index and is signed with its own key; certificates are re-broadcast at most once per event, standstill bundles exactly. In two harnesses every vote is additionally shown, in emission order, to the pool's real SlotState::check_slashable_offence, which never reports an offence. 20 harnesses over two leader windows (slots 1-3 behind genesis, slots 4-7 with parents in slot 3). Counterexamples are replayed natively on the unmodified async code (real tokio channels and runtime context, real BLS keys, std containers); eight seeded mutations of votor.rs were each found and reproduced natively.",
+    "level_note": "NOT an inductive proof: histories of 2-4 solver-chosen events (plus a fixed prefix of up to 2) from the fresh state, events with concrete slots/blocks per family, slots 0-7, at most 2 blocks per slot, 2 candidate parents. Under Kani the async plumbing of votor.rs is rewritten mechanically, bodies verbatim (spec.py REDIRECTS): the eight async fns are compiled as ordinary functions behind Ready-returning wrappers, `.await` on them is a poll that must complete at once, Votor::broadcast is a synchronous recorder (the All2All implementation is exercised only in native replay), tokio::spawn of the timer task is dropped (timeouts are injected events), tokio mpsc ends are inert stand-ins, std BTreeMap/BTreeSet/Vec inside votor.rs are slot-indexed / 2-element / bitmap stand-ins (c05_coll.rs), the loop over pending slots visits slot numbers 0..7 in order and skips absent ones; BlockHash equality is compared word-wise, SecretKey::sign returns a token carrying the key's identity, log::max_level() is Off. CertCreated events reach handle_cert_created through the real should_ignore_pool_event but not through handle_pool_event's match (PoolEvent keeps its discriminant in a niche of the certificate, which CBMC does not constant-fold). Environment assumptions: SafeToNotar(s,b) only after the node's initial vote in s was skip or notar for another block, SafeToSkip(s) only after its notar vote in s (what the pool's check_safe_to_notar / count_*_stake guarantee; C06). Trusts Kani 0.68 MIR translation, CBMC 6.11, CaDiCaL.",
     "overlays": [COLL, C05COLL, FIX, AGG, CERT, POOLM, REEXP, MAIN],
     "redirects": REDIRECTS,
     "coll_cap": 3,
     "functions": ["consensus::votor::Votor::{new,handle_pool_event,should_ignore_pool_event,handle_cert_created,handle_blockstore_event,handle_timeout_event,try_notar,try_final,try_skip_window,check_pending_blocks,set_timeouts,prune,state_mut,has_voted,is_retired,received_shred,first_unpruned_slot}",
                   "consensus::vote::Vote::{new_notar,new_notar_fallback,new_skip,new_skip_fallback,new_final}", "consensus::pool::slot_state::SlotState::check_slashable_offence (c05_slash_*)"],
-    "bounds": "fresh node; fixed prefix of 0-2 events, then 2 (quick) / 3 (thorough) events whose kind the solver picks from a per-harness menu of 4-7 concrete events; slots 0-7 (leader windows 0 and 1), <= 2 competing blocks per slot, <= 2 candidate parents per window, <= 16 votes per run; own validator index 1 of 2",
+    "bounds": "fresh node; fixed prefix of 0-2 events, then 2 (quick) / 3-4 (thorough) events whose kind the solver picks from a per-harness menu of 4-7 concrete events; slots 0-7 (leader windows 0 and 1), <= 2 competing blocks per slot, <= 2 candidate parents per window, <= 16 votes per run; own validator index 1 of 2",
     "explanation": "Bounded-history harnesses: K solver-chosen events on a fresh Votor through the real handlers; a reference monitor written from the property statement checks every vote at broadcast time; decided by Kani -> CBMC -> CaDiCaL for all K-event sequences over each menu at once. Two harnesses also show every vote to the pool's check_slashable_offence. Not inductive: states reachable only by longer histories are outside.",
     "assumptions": [
         "PoolEvent::SafeToNotar((s,b)) is delivered only after the node's own initial vote in s (skip, or notar for a block other than b) was broadcast; PoolEvent::SafeToSkip(s) only after its notar vote in s (pool: SlotState::check_safe_to_notar / count_notar_stake / count_skip_stake read the node's own stored vote). Without it the real code casts the notar-fallback vote BEFORE the skip vote when SafeToNotar arrives for a slot it has not voted in (order only; observed, not claimed as a defect)",
@@ -121,7 +121,7 @@ SPEC = {
         "pool-side model kani_c05_pool.rs: stores each fed vote where SlotState::add_vote stores it (stake counting / certificate creation of add_vote not run); SlotState built by literal for 2 validators under Kani",
     ],
     "outside": [
-        "histories longer than prefix + 3 events; more than two leader windows; epochs; slots >= 8",
+        "histories longer than prefix + 3 (one family: 4) events; more than two leader windows; epochs; slots >= 8",
         "Votor::voting_loop (tokio::select! over the three channels) and the real timer task of set_timeouts (sleep durations, channel back-pressure)",
         "Votor::broadcast's error path (panic on I/O failure) and the All2All implementations",
         "the match arm of handle_pool_event that forwards CertCreated to handle_cert_created (both callees are real)",
@@ -145,6 +145,10 @@ SPEC = {
         _h("c05_standstill_k2", Q, "history/standstill bundle", "slot 1 notarized (concrete prefix); 2 events among notarization certificate, final certificate of window 1, two standstill bundles (1 certificate + 2 own votes)", 3),
         _h("c05_slash_final_k2", T, "history + pool slashing check", "slot 1 notarized (concrete prefix); 2 events among notarization certificate, safe-to-notar, safe-to-skip, timeout, next block; every vote shown to SlotState::check_slashable_offence", 2),
         _h("c05_slash_skip_k2", T, "history + pool slashing check", "fresh node; 2 events among block, timeout, safe-to-notar, notarization certificate; every vote shown to SlotState::check_slashable_offence", 2),
+        _h("c05_g_final_k4", T, "history/finalization against fallback votes", "slot 1 notarized (concrete prefix); 4 events among 2 notarization certificates (slots 1, 2), safe-to-notar, safe-to-skip, next block", 2),
+        _h("c05_g_retired_k3", T, "history/after the final vote", "slot 1 notarized and finalized (concrete prefix); 3 events among safe-to-notar, safe-to-skip, timeout, invalid block, competing block, notarization certificate, next block", 2),
+        _h("c05_g_skipped_k3", T, "history/skipped slot", "window 0 skipped (concrete prefix); 3 events among 2 late blocks, 2 safe-to-notar, notarization / skip certificates", 2),
+        _h("c05_w_prune_k3", T, "history/finalization certificates and pruning", "slot 4 notarized (concrete prefix); 3 events among final / notarization certificates, block, 2 timeouts, safe-to-notar", 2),
         _h("c05_w_prune_k2", T, "history/finalization certificates and pruning", "slot 4 notarized (concrete prefix); 2 events among final / fast-final / notarization certificates, block, 2 timeouts, safe-to-notar", 3),
     ],
 }
